@@ -1,2 +1,23 @@
+"""L1 part of C13: EventMap contracts (contracts/eventmap.py)."""
+from ..pyvc.driver import discharge_all
+from ..pyvc.engine import Unsupported
+from ..common import BASE_ASSUMPTIONS_L1
+
+
 def add_to(run):
-    pass
+    from contracts import eventmap as c
+    obs = []
+    for f in c.ALL:
+        try:
+            fv = f()
+        except Unsupported as e:
+            run.undecided.append(f"{f.__name__}: unsupported construct: {e}")
+            continue
+        run.functions["amaranth_soc." + fv.qualname] = f"proved ({fv.paths} paths, {len(fv.obs)} obligations)"
+        obs += fv.obs
+    for cl in ("event.EventMap.add::new-source-gets-the-next-index", "event.EventMap.add::repeat-is-ignored",
+               "event.EventMap.add::existing-indices-stable", "event.EventMap.add::frozen-map-refuses",
+               "event.EventMap.index::returns-the-registered-index", "event.EventMap.index::KeyError-iff-unknown-source"):
+        run.require(cl)
+    run.assumptions += BASE_ASSUMPTIONS_L1 + ["dict.values() yields the stored values in insertion order (CPython, assumed)"]
+    discharge_all(run, obs, timeout_ms=10000)
